@@ -1,5 +1,6 @@
 import Witverif.Proofs.AbiDealloc3
 import Witverif.Proofs.AbiClean2
+import Witverif.Proofs.AbiClean4
 /-!
 # C03 — Cleanup code frees exactly the heap data the lowering allocated
 
@@ -14,8 +15,8 @@ those) is evaluated on the real trees for seeded values.
 Known defect (see `dealloc_flist_full_false`): cleanup through memory does nothing below a
 fixed-length list; the dynamic theorem therefore carries `noFlist t`.  That `cleanupBlocks` of the
 memory written by the spec's `store` equals the blocks the spec allocated is checked by the monitor
-on every run (spec-internal consistency); direct-operand cleanup is monitored on the real streams;
-the lists-and-own mode through memory is proved (`dealloc_indirect_both_modes`).
+on every run (spec-internal consistency); both cleanup modes are proved through memory
+(`dealloc_indirect_both_modes`) and on flat operands (`dealloc_direct_both_modes`).
 -/
 namespace Witverif.Props.C03
 open Witverif.Abi
@@ -73,6 +74,33 @@ example :
     ∃ ds, deallocIndirect true 0 (.record [.own, .list .own, .borrow, .option .string]) (.arg 0) Off.zero = .ok ds ∧
       ds.length = 3 :=
   ⟨by decide, _, rfl, rfl⟩
+
+/-- **Cleanup on flat operands (direct mode), both modes.**  For every type without fixed-length
+lists, both pointer widths: if the operands denote well-formed core values `cs` for `flatten t` (any bit
+patterns of the right core types — e.g. the lowered parameters of an async import) and the
+discriminants the cleanup inspects are in range, executing the cleanup tree leaves memory and heap
+untouched and extends the ledgers by exactly `flatEff handles p m t cs`: the buffer named by each
+(pointer, length) pair with size `len * elem_size` and the element alignment, preceded by what its
+elements own according to memory; for variants the payload slots are first coerced back from the
+joined slot types (typed Bitcasts) and the active case is cleaned; in lists-and-own mode each
+own / future / stream handle operand is dropped exactly once, in lists-only mode none
+(`CleansF`, `flatEff`: Proofs/AbiClean3.lean, AbiClean4.lean). -/
+theorem dealloc_direct_both_modes (handles : Bool) (p : Nat) (hp : p = 4 ∨ p = 8) (t : Ty) (hn : noFlist t = true)
+    (lvl : Nat) (xs : List Expr) (ds : List Stmt) (h : dealloc handles lvl t xs = .ok ds) :
+    CleansF p lvl (Spec.flatten p t) xs ds (fun m cs => flatEff handles p m t cs) (fun m cs => flatValid p m t cs) :=
+  dealloc_flat_cleans handles p hp t hn lvl xs ds h
+
+/-- Non-vacuity of `dealloc_direct_both_modes`: `tuple<string, own, option<list<u8>>>` on five flat
+operands in lists-and-own mode: a string free, a handle drop and a variant-shaped cleanup; for the
+core values `(ptr 64, len 3, handle 7, some, ptr 128, len 2)` the spec effect is: free (64,3,1), then
+(128,2,1); drop handle 7. -/
+example :
+    (∃ ds, dealloc true 0 (.tuple [.string, .own, .option (.list .u8)])
+      [.arg 0, .arg 1, .arg 2, .arg 3, .arg 4, .arg 5] = .ok ds ∧ ds.length = 3) ∧
+    flatEff true 4 [] (.tuple [.string, .own, .option (.list .u8)])
+      [⟨.i32, 64⟩, ⟨.i32, 3⟩, ⟨.i32, 7⟩, ⟨.i32, 1⟩, ⟨.i32, 128⟩, ⟨.i32, 2⟩]
+      = ([(64, 3, 1), (128, 2, 1)], [7]) :=
+  ⟨⟨_, rfl, rfl⟩, by decide⟩
 
 /-- **`post_return` end to end**: for an exported function whose result (returned through memory,
 no fixed-length lists) lives at `addr`, the generated post-return frees exactly the reachable blocks,
